@@ -16,6 +16,9 @@ type c09Op struct {
 	Profile int  `json:"profile"`
 	Doc     int  `json:"doc"`
 	WithCfg bool `json:"with_cfg"`
+	// Kind "" = through the compiled profile; "text" = the profile text again, late in the history (must still equal
+	// the reference); "intruder" = some other profile is compiled or validated in between
+	Kind string `json:"kind,omitempty"`
 }
 
 type c09Case struct {
@@ -24,6 +27,10 @@ type c09Case struct {
 	DocKinds     []string `json:"doc_kinds"`
 	Ops          []c09Op  `json:"ops"`
 	FreshProcess bool     `json:"fresh_process"`
+	// Intruders are other profiles used in the middle of the history: same terms, but the prefix name the subject
+	// profiles rely on (a built-in one, undeclared) is declared with another namespace
+	Intruders    []string `json:"intruders,omitempty"`
+	IntruderDocs []string `json:"intruder_docs,omitempty"`
 }
 
 func genProfileAndGraphs(t *rapid.T, name string, nGraphs int) (string, []*m.Graph, *m.Profile) {
@@ -97,11 +104,38 @@ func genC09(t *rapid.T) c09Case {
 		c.DocKinds = append(c.DocKinds, "trailing-content")
 	}
 	c.FreshProcess = rapid.IntRange(0, 5).Draw(t, "freshProcess") == 0
+	if rapid.IntRange(0, 2).Draw(t, "builtinPrefix") == 0 {
+		name := genBuiltinName(t)
+		other := "http://other.example.org/vocab/" + name + "#"
+		ok := true
+		var subj, intr []string
+		for _, p := range c.Profiles {
+			s1, ok1 := onBuiltinPrefix(p, name, "")
+			s2, ok2 := onBuiltinPrefix(p, name, other)
+			ok = ok && ok1 && ok2
+			subj, intr = append(subj, s1), append(intr, s2)
+		}
+		if ok {
+			c.Profiles, c.Intruders = subj, intr
+			c.IntruderDocs = []string{dataOnNamespace(c.Docs[0], other), "[]"}
+			for i := range c.Docs {
+				c.Docs[i] = dataOnNamespace(c.Docs[i], builtinNS[name])
+			}
+		}
+	}
 	n := rapid.IntRange(3, 20).Draw(t, "ops")
 	for i := 0; i < n; i++ {
 		op := c09Op{Profile: rapid.IntRange(0, np-1).Draw(t, "p"), Doc: rapid.IntRange(0, len(c.Docs)-1).Draw(t, "d"), WithCfg: rapid.IntRange(0, 3).Draw(t, "cfg") != 0}
 		if i > 0 && rapid.IntRange(0, 4).Draw(t, "repeat") == 0 {
 			op = c.Ops[i-1]
+		}
+		switch k := rapid.IntRange(0, 9).Draw(t, "opKind"); {
+		case k == 0:
+			op.Kind = "text"
+		case k <= 2 && len(c.Intruders) > 0:
+			op.Kind = "intruder"
+			op.Profile = rapid.IntRange(0, len(c.Intruders)-1).Draw(t, "intruder")
+			op.Doc = rapid.IntRange(0, len(c.IntruderDocs)-1).Draw(t, "intruderDoc")
 		}
 		c.Ops = append(c.Ops, op)
 	}
@@ -167,11 +201,31 @@ func decideC09(c c09Case) ev.Verdict {
 		}
 		v.Labels = append(v.Labels, "confirmed-in-fresh-processes")
 	}
-	sawFailThenPass, sawErrThenOK, sawRepeat := false, false, false
+	sawFailThenPass, sawErrThenOK, sawRepeat, sawIntruder := false, false, false, false
 	prevKind := ""
 	for i, op := range c.Ops {
 		var got call
-		if op.WithCfg {
+		if op.Kind == "intruder" {
+			// another profile passes through the process: compiled only, or validated as text
+			if op.WithCfg {
+				_, cc := compileProfile(c.Intruders[op.Profile])
+				got = cc
+			} else {
+				got = validateFixed(c.Intruders[op.Profile], c.IntruderDocs[op.Doc])
+			}
+			if got.failed() {
+				return ev.Violation("c09-compile-failed:"+classifyErr(got), "step %d: the other profile is rejected: %s\n%s", i, trunc(got.errString(), 400), c.Intruders[op.Profile])
+			}
+			v.Labels = append(v.Labels, "step:another-profile-rebinding-the-prefix")
+			sawIntruder = true
+			continue
+		}
+		if op.Kind == "text" {
+			got = validateFixed(c.Profiles[op.Profile], c.Docs[op.Doc])
+			if sawIntruder {
+				v.Labels = append(v.Labels, "history:text-route-after-another-profile")
+			}
+		} else if op.WithCfg {
 			got = validateCompiledFixed(qs[op.Profile], c.Docs[op.Doc])
 		} else {
 			got = guard(func() (string, error) { return pkg.ValidateCompiled(qs[op.Profile], c.Docs[op.Doc], false, nil) })
